@@ -58,6 +58,29 @@ var vC03Faults = []vFault{
 	{"response-type-and-notation", "GET /tn\n  200 @cat jsight\n", "200 @cat jsight", "cannot be declared simultaneously", "", 3},
 	{"request-headers-without-body", "GET /rh\n  Request\n    Headers\n    {\"h\": \"v\"}\n  200 any\n", "Request", jerr.UndefinedRequestBodyForResource, "", 3},
 	{"response-headers-without-body", "GET /hb\n  200\n    Headers\n    {\"h\": \"v\"}\n", "200", "undefined response body", "", 3},
+	{"second-tag-description", "  Description\n    one\n  Description\n    again\n", "Description", jerr.NotUniqueDirective, "TAG @t", 0},
+	{"second-method-description", "    Description\n      again\n", "Description", jerr.NotUniqueDirective, "      d", 0},
+	{"dup-url-path", "URL /cats\n  DELETE\n    201 any\n", "URL /cats", "has already been defined", "", 3},
+	{"dup-interaction-standalone-vs-url", "POST /cats\n  201 any\n", "POST /cats", jerr.MethodIsAlreadyDefinedInResource, "", 3},
+	{"dup-jsonrpc-method", "URL /rpc2\n  Protocol json-rpc-2.0\n  Method foo\n    Params\n    {}\n  Method foo\n    Params\n    {}\n", "Method foo", "already", "", 3},
+	{"protocol-without-value", "URL /pv\n  Protocol\n  Method m\n    Params\n    {}\n", "Protocol", jerr.RequiredParameterNotSpecified, "", 3},
+	{"method-without-name", "URL /mn\n  Protocol json-rpc-2.0\n  Method\n    Params\n    {}\n", "Method", jerr.RequiredParameterNotSpecified, "", 3},
+	{"base-url-without-value", "SERVER @nb\n  BaseUrl\n", "BaseUrl", jerr.RequiredParameterNotSpecified, "", 3},
+	{"paste-without-name", "GET /pn\n  200 any\n  PASTE\n", "PASTE", jerr.RequiredParameterNotSpecified, "", 1},
+	{"macro-without-name", "MACRO\n(\n  404 any\n)\n", "MACRO", jerr.RequiredParameterNotSpecified, "", 1},
+	{"title-without-value", "  Title\n", "Title", jerr.RequiredParameterNotSpecified, "INFO", 0},
+	{"annotated-request", "GET /ar\n  Request any // note\n  200 any\n", "Request", jerr.AnnotationIsForbiddenForTheDirective, "", 3},
+	{"annotated-headers", "GET /ah\n  200 any\n    Headers // note\n    {\"h\": \"v\"}\n", "Headers", jerr.AnnotationIsForbiddenForTheDirective, "", 3},
+	{"annotated-path", "GET /ap/{x}\n  Path // note\n  {\"x\": 1}\n  200 any\n", "Path", jerr.AnnotationIsForbiddenForTheDirective, "", 3},
+	{"annotated-protocol", "URL /apr\n  Protocol json-rpc-2.0 // note\n  Method m\n    Params\n    {}\n", "Protocol", jerr.AnnotationIsForbiddenForTheDirective, "", 3},
+	{"annotated-params", "URL /apa\n  Protocol json-rpc-2.0\n  Method m\n    Params // note\n    {}\n", "Params", jerr.AnnotationIsForbiddenForTheDirective, "", 3},
+	{"annotated-macro", "MACRO @am // note\n(\n  404 any\n)\n", "MACRO @am", jerr.AnnotationIsForbiddenForTheDirective, "", 1},
+	{"annotated-paste", "GET /apx\n  200 any\n  PASTE @m // note\n", "PASTE @m", jerr.AnnotationIsForbiddenForTheDirective, "", 1},
+	{"annotated-operation-id", "GET /aoi\n  OperationId xx // note\n  200 any\n", "OperationId xx", jerr.AnnotationIsForbiddenForTheDirective, "", 3},
+	{"annotated-base-url", "SERVER @ab\n  BaseUrl \"u\" // note\n", "BaseUrl", jerr.AnnotationIsForbiddenForTheDirective, "", 3},
+	{"undefined-type-in-array", "GET /ua\n  200 [@nope]\n", "200 [@nope]", "not found", "", 3},
+	{"undefined-type-in-request", "POST /ur\n  Request @nope\n  200 any\n", "Request @nope", "not found", "", 3},
+	{"similar-paths-through-url", "URL /cats/{other}\n  DELETE\n    200 any\n", "URL /cats/{other}", "ambiguous paths", "", 3},
 	{"method-without-protocol", "URL /np\n  Method bar\n    Params\n    {}\n", "Method bar", "Protocol", "", 3},
 }
 
